@@ -207,6 +207,9 @@ func (g *gen) judge(in reqIn, s sentReq, keySuffix string) {
 			r.Fail(hk.Failure{Sig: "harness:proto", What: "the exchange did not use the intended protocol", Input: in, Got: a.Proto, Want: want})
 		}
 	}
+	if s.InnerErr != "" {
+		r.Fail(hk.Failure{Sig: "nested:inner-upload", What: "an upload made between this request's set-up and its write did not arrive as supplied: " + s.InnerErr, Input: in})
+	}
 	g.emitBody(in, s, parts, orderOK, partsOK, marshalSeen, nt, keySuffix)
 	g.emitUploads(in, s)
 }
@@ -278,7 +281,7 @@ func writeSizes(f fileIn) []int {
 	ns := []int{first}
 	rem := total - first
 	switch f.Kind {
-	case "bytes":
+	case "bytes", "seek":
 		if first == total {
 			// Read returned (n, nil); io.Copy then finds EOF
 			return ns
